@@ -142,12 +142,20 @@ Want(r) ==
 
 \* signature of the failing input class (used to match known findings)
 SubClass(r) == IF \A a, b \in DOMAIN r.sub : r.sub[a] = r.sub[b] THEN "uniform-sub" ELSE "per-pixel-sub"
+\* (the hull edges and the textbook triangulation are computed once per rejected record)
+HullEdgeSet(V) == { e \in { {a, b} : a, b \in VIdx(V) } : Cardinality(e) = 2 /\ HullEdge(V, e) }
+OutsideHull(V, H, p) ==
+    \E e \in H : LET a == CHOOSE k \in e : TRUE  b == CHOOSE k \in e : k # a IN
+        \E u \in VIdx(V) : Sign(Orient(Vx(V, a), Vx(V, b), p)) * Sign(Orient(Vx(V, a), Vx(V, b), Vx(V, u))) < 0
 Sig(r) ==
     IF IsRect(r)
     THEN "rect/" \o (IF r.my = r.mx THEN "square-mesh" ELSE "non-square-mesh") \o "/" \o SubClass(r)
     ELSE IF ~ InputOk(r) THEN "delaunay/bad-input"
-    ELSE "delaunay/" \o (IF \E q \in DOMAIN r.pos : ~ InHull(r.V, r.pos[q]) THEN "points-outside-hull" ELSE "all-inside-hull")
-         \o "/" \o SubClass(r)
+    ELSE LET H == HullEdgeSet(r.V)
+             D == DelaunayTriples(r.V)
+         IN "delaunay/" \o (IF \E q \in DOMAIN r.pos : OutsideHull(r.V, H, r.pos[q]) THEN "points-outside-hull" ELSE "all-inside-hull")
+            \o "/" \o SubClass(r)
+            \o (IF \E a \in VIdx(r.V) : Cardinality(SimplexAdj(D, a)) >= 13 THEN "/hub-vertex" ELSE "")
 
 TraceInit == /\ i = 1
              /\ inp = [kind |-> "trace"] /\ phase = "trace" /\ tab = << >> /\ mat = << >> /\ uniq = << >> /\ nbr = << >>
